@@ -173,6 +173,24 @@ class OArr(np.ndarray):
         return self
 
 
+class TArr(OArr):
+    """object array of symbolic integers with a *declared* numpy dtype: code that consults array.dtype (accumulator /
+    result types) sees the declared one"""
+    decl = np.dtype(np.uint8)
+
+    @property
+    def dtype(self):
+        return self.decl
+
+
+def int_array(name, shape):
+    from ..core import SInt
+    a = np.empty(shape, dtype=object)
+    for i in np.ndindex(a.shape):
+        a[i] = SInt(z3.Int(f"{name}_" + "_".join(map(str, i))))
+    return a
+
+
 def obj_array(name, shape):
     a = np.empty(shape, dtype=object)
     for i in np.ndindex(a.shape):
@@ -221,6 +239,32 @@ class NPx:
 
     def asarray(self, a, *x, **k):
         return a if isinstance(a, np.ndarray) else np.asarray(a, *x, **k)
+
+    def mean(self, a, axis=None, dtype=None, **k):
+        """numpy's mean: exact (float64 accumulator) unless an integer accumulator/result dtype is requested, in which
+        case the sum wraps modulo 2^bits and the quotient is truncated (numpy semantics for integer dtype=)"""
+        a = np.asarray(a, dtype=object)
+
+        def red(vals):
+            tot = vals[0]
+            for v in vals[1:]:
+                tot = tot + v
+            if dtype is not None and np.issubdtype(np.dtype(dtype), np.integer):
+                bits = np.dtype(dtype).itemsize * 8
+                return (tot % (1 << bits)) // len(vals)
+            return tot / len(vals)
+        if axis is None:
+            return red(list(a.ravel()))
+        axes = (axis,) if isinstance(axis, int) else tuple(axis)
+        axes = tuple(ax % a.ndim for ax in axes)
+        keep = [k_ for k_ in range(a.ndim) if k_ not in axes]
+        out = np.empty([a.shape[k_] for k_ in keep], dtype=object)
+        for idx in np.ndindex(out.shape):
+            sl = [slice(None)] * a.ndim
+            for k_, v in zip(keep, idx):
+                sl[k_] = v
+            out[idx] = red(list(a[tuple(sl)].ravel()))
+        return out
 
 
 class KInterp:
@@ -291,13 +335,24 @@ def glue_work(P, item):
             bad.append(wrap(out[i]).e != want)
         solve(P, f"downsample_1d[{method},n={n},factor={factor}]: group {method}s, remainder dropped", [], z3.Or(bad),
               lambda m: dict(kind="ds1d_glue", n=n, factor=factor, method=method))
-    elif kind in ("ds2d", "ds2dflat", "block"):
+    elif kind in ("ds2d", "ds2dflat", "block", "ds2d_u8", "block_u8"):
         _, _, d1, d2, f1, f2, method = item
-        x = obj_array("x", (d1, d2))
-        xs = [[x[i, j].e for j in range(d2)] for i in range(d1)]
+        typed = kind.endswith("_u8")
+        kind = kind.replace("_u8", "")
+        cons = []
+        if typed:
+            # 8-bit samples: symbolic integers in [0, 255] in an array whose declared dtype is uint8
+            x = int_array("x", (d1, d2))
+            cons = [z3.And(x[i].e >= 0, x[i].e <= 255) for i in np.ndindex(x.shape)]
+            xs = [[z3.ToReal(x[i, j].e) for j in range(d2)] for i in range(d1)]
+            VIEW = TArr
+        else:
+            x = obj_array("x", (d1, d2))
+            xs = [[x[i, j].e for j in range(d2)] for i in range(d1)]
+            VIEW = OArr
         if kind == "ds2d":
             fn = rebind(stats.downsample_2d, np=npx)
-            out = fn(x.view(OArr), (f1, f2), method)
+            out = fn(x.view(VIEW), (f1, f2), method)
         elif kind == "ds2dflat":
             fn = rebind(stats.downsample_2d_flat, np=npx, kernels=KInterp())
             out = np.asarray(fn(x.ravel().view(OArr), f1, f2, d1, d2, method), dtype=object).reshape(d1 // f1, d2 // f2)
@@ -317,7 +372,7 @@ def glue_work(P, item):
             class B:
                 def __init__(self, data, hdr):
                     self.data, self.header = data, hdr
-            me = B(x.view(OArr), H())
+            me = B(x.view(VIEW), H())
             res = rebind(block.FilterbankBlock.downsample, stats=St, FilterbankBlock=B)(me, ffactor=f1, tfactor=f2, filter_method=method)
             out = res.data
             ch = res.header
@@ -334,9 +389,11 @@ def glue_work(P, item):
                 for j in range(n2):
                     g = [xs[i * f1 + a][j * f2 + b] for a in range(f1) for b in range(f2)]
                     want = z3.Sum(g) / (f1 * f2) if method == "mean" else median_term(g)
-                    bad.append(wrap(out[i, j]).e != want)
-        solve(P, f"{kind}[{method},{d1}x{d2},factors=({f1},{f2})]: means/medians of full groups on both axes", [], z3.Or(bad),
-              lambda m: dict(kind="ds2d_glue", which=kind, dims=[d1, d2], factors=[f1, f2], method=method))
+                    got = wrap(out[i, j]).e
+                    bad.append((z3.ToReal(got) if got.sort() == z3.IntSort() else got) != want)
+        solve(P, f"{kind}[{method},{d1}x{d2},factors=({f1},{f2}){',uint8 samples' if typed else ''}]: means/medians of full groups on both axes", cons, z3.Or(bad),
+              lambda m: dict(kind="ds2d_glue", which=kind, dims=[d1, d2], factors=[f1, f2], method=method, dtype="uint8" if typed else "float64",
+                             data=[[m.eval(x[i, j].e, model_completion=True).as_long() for j in range(d2)] for i in range(d1)] if typed else None))
     elif kind == "deredden":
         _, _, n, w, method = item
         from sigpyproc import timeseries
@@ -403,6 +460,8 @@ def run(R):
                     items.append(("glue", "ds2dflat", d1, d2, f1, f2, m))
             if (f1, f2) in ((2, 1), (1, 2), (2, 3)):
                 items.append(("glue", "block", d1, d2, f1, f2, "mean"))
+                items.append(("glue", "ds2d_u8", d1, d2, f1, f2, "mean"))
+                items.append(("glue", "block_u8", d1, d2, f1, f2, "mean"))
     for n in range(0, 7):
         items.append(("kernel", "detrend", n))
     for n in range(1, nmax + 1):
